@@ -233,6 +233,11 @@ def run(ctx):
         ctx.unrecognised(e.rule, e.msg, e.fn, e.line)
     rule_ranges_all(ctx, M)
     panics.audit(ctx, F, M.cg, M.entries, "C08", configs=("lib", "lib-nooverflow") if ctx.tier == "thorough" else ("lib",))
+    if ctx.tier == "thorough":
+        from sa import xref
+        from rules import selftest
+        xref.cross_check(ctx, F, ["cast_possible_truncation", "unwrap_used", "indexing_slicing"])
+        selftest.run(ctx, ["norec", "narrow"])
     ctx.assume("preconditions of the property: three distinct flop cards, turn/river None, scope positions valid")
     ctx.assume("std, regex, fxhash functions not in the panicking-callee table are total")
     ctx.assume("termination of the deal loop (odometer progress) is not decided statically")
